@@ -1163,8 +1163,10 @@ class PyCdlib:
                     child_links.append(new_record)
 
                 if is_dir:
-                    if new_record.rock_ridge is not None and new_record.rock_ridge.relocated_record():
-                        self._rr_moved_record = new_record
+                    if new_record.rock_ridge is not None and new_record.rock_ridge.relocated_record() and not dots:
+                        # The directory that holds a relocated directory is
+                        # the relocation directory.
+                        self._rr_moved_record = dir_record
 
                     if new_record.is_dotdot() and new_record.rock_ridge is not None and new_record.rock_ridge.parent_link_record_exists():
                         # Make sure to mark a dotdot record with a parent link
